@@ -67,8 +67,11 @@ def as_material_array(material, basis, phases, chemicals):
     """
     isa = isinstance
     if isa(material, tmo.Stream):
-        if phases and material.phases != phases:
-            raise ValueError("reaction and stream phases do not match")
+        if phases:
+            if material.phases != phases:
+                raise ValueError("reaction and stream phases do not match")
+        elif material._imol.data.ndim != 1:
+            raise ValueError("reaction has no phases; cannot react a multi-phase stream")
         if material.chemicals is chemicals:
             config = None
         else:
